@@ -1338,7 +1338,6 @@ func (fcomp *fcomp) expr(e syntax.Expr) {
 		fcomp.emit(INDEX)
 
 	case *syntax.SliceExpr:
-		fcomp.setPos(e.Lbrack)
 		fcomp.expr(e.X)
 		if e.Lo != nil {
 			fcomp.expr(e.Lo)
@@ -1355,6 +1354,7 @@ func (fcomp *fcomp) expr(e syntax.Expr) {
 		} else {
 			fcomp.emit(NONE)
 		}
+		fcomp.setPos(e.Lbrack)
 		fcomp.emit(SLICE)
 
 	case *syntax.Comprehension:
